@@ -128,6 +128,32 @@ def match(p: ast.AST, n: ast.AST, env: Env) -> Optional[Env]:
         e1 = match(p.func, n.func, env)
         if e1 is None:
             return None
+        from .util import call_params
+        ps = call_params(n)
+        if ps is not None and not any(isinstance(a, ast.Starred) for a in list(p.args) + list(n.args)):
+            # the callee's signature is known: arguments are compared by parameter, positional and keyword spelling alike
+            def bind(c):
+                d, rest = {}, False
+                args = list(c.args)
+                if args and _is_rest(args[-1]):
+                    args, rest = args[:-1], True
+                for i, a in enumerate(args):
+                    d[ps[i] if i < len(ps) else f"#{i}"] = a
+                for k in c.keywords:
+                    if k.arg == "REST":
+                        rest = True
+                    elif k.arg:
+                        d[k.arg] = k.value
+                return d, rest
+            pd, rest = bind(p)
+            nd, _ = bind(n)
+            if (not rest and set(pd) != set(nd)) or (rest and not set(pd) <= set(nd)):
+                return None
+            for k in pd:
+                e1 = match(pd[k], nd[k], e1)
+                if e1 is None:
+                    return None
+            return e1
         e1 = _match_list(p.args, n.args, e1)
         if e1 is None:
             return None
